@@ -104,7 +104,8 @@ func (c40) NewRun(plan *simrt.Source, job *harn.Job) harn.Run {
 	names := []string{"a", "b/c", "d", "e/f/g"}[:nDirs]
 	if plan.Chance(300) {
 		// names that differ in case only are different directories here
-		names = [][]string{{"a", "A", "b/c", "b/C"}, {"Foo", "foo", "d", "D"}, {"pkg/Util", "pkg/util", "X", "e"}}[plan.Draw(3)][:nDirs]
+		names = [][]string{{"a", "A", "b/c", "b/C"}, {"Foo", "foo", "d", "D"}, {"pkg/Util", "pkg/util", "X", "e"},
+			{".tools", "tools", ".github/scripts", "github/scripts"}, {"pkg/.internal", "pkg/internal", ".x", "x"}}[plan.Draw(5)][:nDirs]
 	}
 	r.rootKind = plan.Draw(4) // 0,1: a path that does not exist; 2: a real directory; 3: a real directory whose name has no letters
 	budget := maxOps
@@ -257,7 +258,11 @@ func (r *c40run) fetch(client int, full bool) {
 		if !strings.HasPrefix(got, r.root) {
 			r.failure = &simrt.Failure{Class: "oracle:fullpath", Msg: fmt.Sprintf("Fetch(true) returned %q, not below root %q", got, r.root), Sites: []string{"Fetch"}}
 		}
-		got = strings.TrimPrefix(got, r.root)
+		// the same directory may be spelled <root>/. or <root>/ : compare directories, not spellings
+		got = path.Clean(strings.TrimPrefix(got, r.root))
+		if got == "" {
+			got = "."
+		}
 	}
 	r.hist = append(r.hist, hop{Client: client, Kind: "fetch", Dir: got, Call: call, Ret: r.tick()})
 }
